@@ -46,6 +46,7 @@ static int ref_words(const char *s, char w[3][1200])
 static void ref_exec(const char *cmd, ref_t *r)
 {
     char out[2100], c[2100]; size_t o = 0; int sp = 0;
+    { long big = emu_big(cmd); if (big >= 0) { for (long i = 0; i < big && r->n < CONFIG_BUFF - 1; i++) r_put(r, "x", 1); return; } }
     emu_output(cmd, out, sizeof out);
     if (!out[0]) return;
     for (size_t i = 0; out[i]; i++) { if (isspace((unsigned char) out[i])) { if (!sp) c[o++] = ' '; sp = 1; } else { c[o++] = out[i]; sp = 0; } }
@@ -285,6 +286,36 @@ static void l_case(uint64_t idx, void *ctx)
     mc_nontrivial();
 }
 
+/* ---- commands whose output is longer than the line buffer, and longer than 64 KiB: the result is the expansion cut at the limit */
+static const long BIGOUT[] = { 100, 20000, 20470, 20477, 20480, 32767, 32768, 65535, 65536, 65537, 70000, 140000 };
+#define NBIGOUT ((int) (sizeof BIGOUT / sizeof BIGOUT[0]))
+static void bo_desc(uint64_t idx, void *ctx, char *b, size_t n) { (void) ctx; snprintf(b, n, idx % 2 ? "spifconf_shell_expand(\"ab`big %ld`cd\") where the command prints %ld characters" : "spifconf_shell_expand(\"ab%%exec(big %ld)cd\") where the command prints %ld characters", BIGOUT[idx / 2], BIGOUT[idx / 2]); }
+static void bo_case(uint64_t idx, void *ctx)
+{
+    long N = BIGOUT[idx / 2]; (void) ctx;
+    char *in = malloc(CONFIG_BUFF); snprintf(in, CONFIG_BUFF, idx % 2 ? "ab`big %ld`cd" : "ab%%exec(big %ld)cd", N);
+    const char *shape = N + 4 < CONFIG_BUFF - 1 ? "command output within the line buffer" : (N <= 65535 ? "command output beyond the line buffer" : "command output beyond 64 KiB");
+    mc_set_shape(shape);
+    g_home = "/h";
+    static ref_t R; memset(&R, 0, sizeof(int) * 2); R.n = 0;
+    g_exec_emul = 1;
+    g_env_on = 1; int ok = ref_expand(in, &R); g_env_on = 0; R.out[R.n] = 0;
+    char *k1; char *r = expand_in(in, CONFIG_BUFF, 0xA5, &k1);
+    g_exec_emul = 0;
+    if (!r) FAIL("spifconf_shell_expand", "model:refused", shape, "returned NULL");
+    else {
+        size_t n = strnlen(r, CONFIG_BUFF + 8);
+        if (n >= CONFIG_BUFF) FAIL("spifconf_shell_expand", "model:too-long", shape, "result is not NUL-terminated within the %d-byte line buffer", CONFIG_BUFF);
+        else if (ok && R.n < CONFIG_BUFF - 1 && strcmp(r, R.out)) FAIL("spifconf_shell_expand", "model:value", shape, "result of %zu characters differs from the reference of %zu characters", n, R.n);
+        else if (ok && R.n >= CONFIG_BUFF - 1 && strncmp(r, R.out, n)) FAIL("spifconf_shell_expand", "model:value", shape, "the cut result of %zu characters is not a prefix of the full expansion (ab, %ld x, cd)", n, N);
+        else if (ok && R.n >= CONFIG_BUFF - 1 && n < CONFIG_BUFF - 600) FAIL("spifconf_shell_expand", "model:value", shape, "an expansion of more than %d characters came back %zu characters long", CONFIG_BUFF - 1, n);
+    }
+    uint64_t rl = r ? strlen(r) : 0;
+    free(k1); free(in);
+    mc_nontrivial();
+    mc_outcome(rl);
+}
+
 /* ---- parentheses nested d deep inside a call's arguments, d around 127/255/256/512 (the depth counter of the argument scanner) */
 static const int PD[] = { 1, 100, 126, 127, 128, 254, 255, 256, 257, 300, 511, 512, 513 };
 #define NPD ((int) (sizeof PD / sizeof PD[0]))
@@ -328,6 +359,7 @@ int main(int argc, char **argv)
         for (g_n = 0; g_n <= N; g_n++) if (!mc_e2_level("expand", g_n, mc_words_of_len(NFRAG, g_n) * 3, a_case, a_desc, NULL)) break;
         mc_e2_level("limit", 1, (uint64_t) NLFRAG * 14 * 2, l_case, l_desc, NULL);
         mc_e2_level("paren_depth", 513, (uint64_t) NPD * 2, pd_case, pd_desc, NULL);
+        mc_e2_level("long_command_output", 140000, (uint64_t) NBIGOUT * 2, bo_case, bo_desc, NULL);
         spifconf_free_subsystem();
     }
     if (!mc_arg("only", NULL) || !strcmp(mc_arg("only", ""), "b")) {
